@@ -386,8 +386,11 @@ func (ab *dsAddrBook) supersededSignedAddrs(p peer.ID, newAddrs []ma.Multiaddr) 
 	}
 	pr.RUnlock()
 
-	superseded := make([]ma.Multiaddr, 0, len(prevRec.Addrs))
-	for _, a := range prevRec.Addrs {
+	// compare transport addresses: entries are stored without the
+	// /p2p/<peer> suffix a record may carry
+	prevAddrs := cleanAddrs(prevRec.Addrs, p)
+	superseded := make([]ma.Multiaddr, 0, len(prevAddrs))
+	for _, a := range prevAddrs {
 		key := string(a.Bytes())
 		if _, still := newSet[key]; still {
 			continue
